@@ -161,6 +161,19 @@ def _breakpoints(case):
     return None
 
 
+def _agg_range(s):
+    return s.max() - s.min()
+
+
+def _agg_twice(s):
+    return 2 * s.sum()
+
+
+# aggregates given as callables (NOT the identity on a single value, like "count"): a pixel present in one input only must go
+# through the aggregation too
+AGG_PY = {"range": _agg_range, "twice": _agg_twice}
+
+
 def _agg(case):
     """merge with a requested aggregation on an extra INTEGER value column `w` (count stays summed): both columns vs Lean"""
     d = gen.tmpdir()
@@ -178,7 +191,7 @@ def _agg(case):
             paths.append(p)
         w_inputs = [[[i, j, wval(k, v)] for i, j, v in px] for k, px in enumerate(case["inputs"])]
         for mb in case["mergebufs"]:
-            impl(cooler.merge_coolers, out, paths, mergebuf=mb, columns=["count", "w"], agg={"w": case["agg"]})
+            impl(cooler.merge_coolers, out, paths, mergebuf=mb, columns=["count", "w"], agg={"w": AGG_PY.get(case["agg"], case["agg"])})
             t = cooler.Cooler(out).pixels()[:]
             got_c = [[int(a), int(b), int(c)] for a, b, c in zip(t["bin1_id"], t["bin2_id"], t["count"])]
             got_w = [[int(a), int(b), int(w)] for a, b, w in zip(t["bin1_id"], t["bin2_id"], t["w"])]
@@ -217,14 +230,18 @@ def _mixed_dtypes(case):
             df["count"] = np.array([qq[2] / 4 for qq in q], dtype=dt)
             impl(cooler.create_cooler, p, gen.bins_df(bins), df, dtypes={"count": dt}, ordered=True)
             paths.append(p)
+        # the `dtypes` argument in its equally valid spellings: omitted, None, an empty dict, a dict naming another column only —
+        # in each of them the count column's dtype is the common type of the inputs
+        spell = case.get("dtypes_arg", "omitted")
+        kw = {"omitted": {}, "none": {"dtypes": None}, "empty": {"dtypes": {}}, "other": {"dtypes": {"nosuchcolumn": np.dtype("float32")}}}[spell]
         for order in it.permutations(range(len(paths))):
-            impl(cooler.merge_coolers, out, [paths[k] for k in order], mergebuf=case["mergebuf"])
+            impl(cooler.merge_coolers, out, [paths[k] for k in order], mergebuf=case["mergebuf"], **{k_: (dict(v_) if isinstance(v_, dict) else v_) for k_, v_ in kw.items()})
             t = cooler.Cooler(out).pixels()[:]
             got = [[int(a), int(b), float(c) * 4] for a, b, c in zip(t["bin1_id"], t["bin2_id"], t["count"])]
             m = drv().ask("C07.merge", inputs=[q_inputs[k] for k in order], n=n, mergebuf=case["mergebuf"])
             want = [[i, j, float(v)] for i, j, v in m["spec"]]
             if got != want:
-                return {"mismatch": True, "order": list(order), "dtypes": [case["dtypes"][k] for k in order],
+                return {"mismatch": True, "order": list(order), "dtypes": [case["dtypes"][k] for k in order], "dtypes_argument": spell,
                         "stored_dtype": str(t["count"].dtype), "impl_quarters": got, "model_quarters": want,
                         "note": "a stored value differs from the exact aggregate (values are multiples of 1/4)"}
             if float(cooler.Cooler(out).info["sum"]) * 4 != float(m["total"]):
@@ -357,19 +374,24 @@ def cases(tier, rng):
         k = rng.randint(2, 3)
         ins = _inputs(rng, n, True, k)
         yield "mixed_dtypes", {"n": n, "inputs": ins, "mergebuf": rng.randint(1, 9),
-                               "dtypes": [rng.choice(["int32", "int64", "float32", "float64"]) for _ in range(k)]}
+                               "dtypes": [rng.choice(["int32", "int64", "float32", "float64"]) for _ in range(k)],
+                               "dtypes_arg": ["omitted", "none", "empty", "other"][_ % 4]}
+    yield "mixed_dtypes", {"n": 3, "inputs": [[[0, 1, 1], [1, 1, 2]], [[0, 1, 6], [1, 2, 9]]], "mergebuf": 5, "dtypes": ["float64", "float64"],
+                           "dtypes_arg": "empty"}
     yield "mixed_dtypes", {"n": 3, "inputs": [[[0, 1, 1], [1, 1, 2]], [[0, 1, 6], [1, 2, 9]]], "mergebuf": 5, "dtypes": ["int64", "float64"]}
     field_sets = [[], ["count"], ["count", "w"], ["w", "count"], ["count", "w:agg=max"], ["w:agg=min", "count"],
                   ["count:dtype=int64", "w:dtype=int64,agg=max"], ["w:agg=first"], ["count", "w:agg=last"]]
     for fs in (field_sets if thorough else field_sets[:7]):
         n = rng.randint(2, 4)
         yield "cli_merge", {"n": n, "inputs": _inputs(rng, n, True, rng.randint(2, 3)), "mergebuf": rng.choice([1, 2, 5, 100]), "fields": fs}
-    for _ in range(30 if thorough else 8):
+    for t in range(36 if thorough else 12):
         n = rng.randint(2, 5)
-        ins = _inputs(rng, n, True, rng.randint(2, 3))
+        ins = _inputs(rng, n, True, rng.randint(1, 3))
+        if not any(ins):
+            ins[0] = [[0, n - 1, 2]]
         tot = sum(len(x) for x in ins)
         yield "agg", {"n": n, "inputs": ins, "mergebufs": sorted({1, 2, rng.randint(1, tot + 1), tot + 1}),
-                      "agg": rng.choice(["max", "min", "sum", "first", "last"])}
+                      "agg": ["max", "min", "sum", "first", "last", "count", "range", "twice"][t % 8]}
 
 
 def shrink(name, case):
